@@ -43,6 +43,9 @@ pub fn eval(case: &J) -> Outcome {
             Ok(Ok(w)) => { conv.push(val_to_j(&w));
                 // property-level oracles (C12): the image lies in the converted type; two values do not collide
                 if let Ok(Ok(t)) = &img { if !crate::s_dtype::mem(t, &w) { out.fail("C12/injlat/image-not-in-converted-type", format!("{v} of {a} converts to {w}, outside the converted type {t}")); } }
+                // round trip (C12): where the reverse conversion exists and accepts the converted value, it returns the original
+                if let Ok(Ok(back)) = guarded(|| b.inject_into(&a)) { if let Ok(Ok(true)) = guarded(|| b.into_data_type(&a).map(|_| true)) {
+                    if let Ok(Ok(v2)) = guarded(|| back.value(&w)) { out.tag("round-trip"); if v2 != v { out.fail("C12/injlat/round-trip", format!("{v} of {a} converts to {w} in {b}, and converting back gives {v2}")); } } } }
                 images.push((v, w)); }
             Ok(Err(e)) => { conv.push(json!("refused")); out.fail("C12/injlat/not-total", format!("{a} converts into the variant of {b}, but its member {v} is refused: {e}")); }
             Err((loc, msg)) => { conv.push(json!("panic")); out.fail(&format!("C18/injlat/value-panic/{}", site(&loc, &msg)), format!("converting {v} from {a} into {b} panicked: {msg}")); }
